@@ -218,7 +218,7 @@ def spec_permutable(spec):
 def gen_world(wseed):
     """World + evaluation pool, shared by the GROUP plans of one world seed."""
     rng = random.Random(f"{wseed}:world")
-    exotic = 0.0
+    exotic = rng.choice([0.0, 0.0, 0.0, 0.2])
     ntrees = 1 if rng.random() < 0.75 else 2
     trees = {}
     cfgs = {}
